@@ -84,7 +84,7 @@ impl Prop for C16 {
         }
     }
     fn required_probes(&self, _tier: Tier) -> Vec<&'static str> {
-        vec!["payload_pushdata1", "payload_pushdata2", "payload_pushdata4", "payload_76_80", "invalid_utf8_payload", "empty_payload", "multibyte_utf8_line", "sub_range_run", "lines_before_a_failing_block", "witness_commitment_payload_fork_coin", "same_txid_processed_twice", "block_with_64_plus_txs"]
+        vec!["payload_pushdata1", "payload_pushdata2", "payload_pushdata4", "payload_76_80", "invalid_utf8_payload", "empty_payload", "multibyte_utf8_line", "sub_range_run", "lines_before_a_failing_block", "witness_commitment_payload_fork_coin", "same_txid_processed_twice", "block_with_64_plus_txs", "heights_of_ten_or_more_digits"]
     }
     fn explore(&self, item: u64, rng: &mut Rng, _tier: Tier, h: &mut Harness) -> Result<(), String> {
         let coin = COINS[(item % 8) as usize];
@@ -219,7 +219,16 @@ impl Prop for C16 {
         scn.layouts = vec![random_layout(nb, 2, false, rng)];
         scn.index = index_opts(rng);
         let t = nb as u64 - 1;
+        // an index segment at heights of ten and more digits (the height column of a line is padded to nine)
+        let base = if rng.chance(1, 10) { *rng.pick(&[999_999_996u64, 1_000_000_000, 4_294_967_294, 1_000_000_000_000]) } else { 0 };
+        scn.base_height = base;
+        if base > 0 {
+            h.stats.probe("heights_of_ten_or_more_digits");
+        }
         let mut r = RunSpec::new("opreturn");
+        if base > 0 {
+            r.start = Some(base);
+        }
         r.threads = if wide_blocks { *rng.pick(&[8usize, 16, 64]) } else { pick_threads(rng) };
         r.plan = benign_plan(rng);
         // where stdout points must not matter: sometimes a pseudo-terminal instead of a file
@@ -227,9 +236,9 @@ impl Prop for C16 {
         scn.runs.push(r.clone());
         if t >= 1 {
             let mut r2 = r.clone();
-            r2.start = Some(rng.range(0, t - 1));
+            r2.start = Some(base + rng.range(0, t - 1));
             if rng.coin() {
-                r2.end = Some(rng.range(r2.start.unwrap() + 1, t + 1));
+                r2.end = Some(rng.range(r2.start.unwrap() + 1, base + t + 1));
             }
             scn.runs.push(r2);
         }
@@ -240,7 +249,7 @@ impl Prop for C16 {
         h.check(&mut scn)?;
         // a block that cannot be read in the middle of the range: the lines of the blocks processed before
         // it must have been printed (and nothing else), the run fails
-        if nb >= 3 && rng.chance(1, 4) {
+        if nb >= 3 && base == 0 && rng.chance(1, 4) {
             let mut f = scn.clone();
             f.family = "fault-midway".into();
             let hh = rng.range(1, t);
